@@ -633,6 +633,46 @@ func (c *Ctx) synchronised(a fieldAccess, heldCache map[string]map[ssa.Instructi
 			}
 		}
 	}
+	// (b') inside a method of the object that is only ever called, on that object, from the function run by its Once.Do
+	if a.fn.Parent() == nil && len(a.fn.Params) > 0 && a.root == ssa.Value(a.fn.Params[0]) && len(c.G.In[a.fn]) > 0 {
+		all := true
+		onceName := ""
+		ncallers := 0
+		for _, e := range c.G.In[a.fn] {
+			cs, isCall := e.Site.(*ssa.Call)
+			cl := e.Caller
+			// promoted-method wrappers of an unexported method that nothing calls exist only in method sets
+			if cl.Synthetic != "" && len(c.G.In[cl]) == 0 && a.fn.Object() != nil && !a.fn.Object().Exported() {
+				continue
+			}
+			ncallers++
+			if !isCall || cs.Call.StaticCallee() != a.fn || cl.Parent() == nil || len(cs.Call.Args) == 0 {
+				all = false
+				break
+			}
+			// the receiver handed to the method is the closure's captured object
+			var fvr *ssa.FreeVar
+			switch rv := cs.Call.Args[0].(type) {
+			case *ssa.FreeVar:
+				fvr = rv
+			case *ssa.UnOp:
+				fvr, _ = rv.X.(*ssa.FreeVar)
+			}
+			if fvr == nil {
+				all = false
+				break
+			}
+			nm, ok := c.closureUnderOnce(cl, fvr, a.owner)
+			if !ok {
+				all = false
+				break
+			}
+			onceName = nm
+		}
+		if all && ncallers > 0 {
+			return true, "inside a method that only the function run by " + onceName + ".Do of the same object calls"
+		}
+	}
 	// (c) read ordered after Once.Do on the same object in this function
 	if !a.write {
 		for _, ci := range core.CallsIn(a.fn) {
@@ -668,11 +708,23 @@ func funcOfValueR(v ssa.Value) *ssa.Function {
 }
 
 func writesField(fn *ssa.Function, fv *types.Var) bool {
+	return writesFieldDepth(fn, fv, 0)
+}
+
+func writesFieldDepth(fn *ssa.Function, fv *types.Var, depth int) bool {
 	for _, b := range fn.Blocks {
 		for _, ins := range b.Instrs {
 			if st, ok := ins.(*ssa.Store); ok {
 				if _, f, ok := core.FieldAddrOf(st.Addr); ok && f == fv {
 					return true
+				}
+			}
+			// the write may sit in a method the function delegates to
+			if call, ok := ins.(*ssa.Call); ok && depth < 2 {
+				if h := call.Call.StaticCallee(); h != nil && h.Signature.Recv() != nil && len(h.Blocks) > 0 && h != fn {
+					if writesFieldDepth(h, fv, depth+1) {
+						return true
+					}
 				}
 			}
 		}
